@@ -1410,12 +1410,58 @@ def search_plugin(S):
                 S.fail("plugin-private-roundtrip", {"key": kind}, "private key proxy does not return the key")
         except Exception as e:   # noqa
             S.fail("plugin-roundtrip-raises", {"key": kind, "der": sk.to_der()}, "%s: %s" % (type(e).__name__, e))
+        plugin_flavours(S, c, kind, sk, raw, header)
         f = P.create_from_raw_fmt
         for k in range(len(raw)):
             S.probe("plugin.PublicEccKeyProxy.create_from_raw_fmt", f, raw[:k], "reject", "truncation to %d of 64 bytes of raw64" % k, c.name)
         for ext in (b"\x00", b"\x04", bytes(32)):
             S.probe("plugin.PublicEccKeyProxy.create_from_raw_fmt", f, raw + ext, "reject", "extension by %d bytes of raw64" % len(ext), c.name)
         S.mutate(c, "raw64", "plugin.PublicEccKeyProxy.create_from_raw_fmt", f, raw, 0.3 if S.ctx.quick() else 1.0)
+
+
+def plugin_flavours(S, c, kind, sk, raw, header):
+    """the bec2format API (create_public_ecc_key_from_der_fmt / _from_raw_fmt, to_der_fmt, to_raw_bin_fmt,
+    PrivateEccKey) on EVERY DER flavour python-ecdsa emits for a P-256 key: the raw format is X||Y of the
+    same point whatever DER the key was loaded from, to_der_fmt() is the canonical 91-byte form, and
+    repeated / interleaved calls on one object keep giving the same answers"""
+    import bec2format.crypto as bc
+    vk = sk.verifying_key
+    canonical = header + raw
+    flavours = [(pe, ce, vk.to_der(pe, ce)) for pe in ("uncompressed", "compressed", "hybrid")
+                for ce in ("named_curve", "explicit")]
+    flavours.append(("from-private-key", "sec1", None))
+    for pe, ce, der in flavours:
+        label = "plugin/%s/%s" % (pe, ce)
+        info = {"decoder": "plugin.PublicEccKeyProxy.create_from_der_fmt", "curve": c.name, "input": der or sk.to_der(),
+                "how": "api-sequence on %s of a %s key" % (label, kind), "expected_raw": raw, "expected_der": canonical}
+        S.ctx.case(("plugin-flavour", label, der or sk.to_der()))
+        S.count("plugin:flavour")
+        try:
+            if der is None:
+                key = S.I.plugin.PrivateEccKeyProxy.create_from_der_fmt(sk.to_der()).public_key
+            else:
+                key = bc.create_public_ecc_key_from_der_fmt(der)
+            seq = [key.to_raw_bin_fmt(), key.to_der_fmt(), key.to_raw_bin_fmt(), key.to_der_fmt(), key.to_raw_bin_fmt()]
+            seq2 = None
+            if seq == [raw, canonical, raw, canonical, raw]:
+                again = bc.create_public_ecc_key_from_der_fmt(seq[1])             # der -> raw -> der
+                back = bc.create_public_ecc_key_from_raw_fmt(seq[0])              # raw -> der -> raw
+                seq2 = [again.to_der_fmt(), again.to_raw_bin_fmt(), back.to_raw_bin_fmt(), back.to_der_fmt()]
+        except Exception as e:   # noqa
+            info["exception"] = type(e).__name__
+            S.fail("plugin-api-raises", info, "%s: %s" % (type(e).__name__, str(e)[:120]))
+            continue
+        if seq[0] != raw or seq[2] != raw or seq[4] != raw:
+            info["got"] = seq[0] if seq[0] != raw else (seq[2] if seq[2] != raw else seq[4])
+            S.fail("plugin-raw-not-XY", info,
+                   "to_raw_bin_fmt() of a key loaded from %s gives %d bytes that are not X||Y of the point" % (label, len(info["got"])))
+        elif seq[1] != canonical or seq[3] != canonical:
+            info["got"] = seq[1] if seq[1] != canonical else seq[3]
+            S.fail("plugin-der-not-canonical", info,
+                   "to_der_fmt() of a key loaded from %s is not the 27-byte header followed by X||Y" % label)
+        elif seq2 != [canonical, raw, raw, canonical]:
+            info["got"] = b"|".join(seq2)
+            S.fail("plugin-raw-der-roundtrip", info, "der -> raw -> der / raw -> der -> raw is not the identity for %s" % label)
 
 
 def find_openssl():
@@ -1556,6 +1602,30 @@ def replay(ctx, data):
             print(" independent   :", found[1].hex() if isinstance(found[1], bytes) else found[1])
             print(" reproduces:", found[0] != found[1])
             rc |= found[0] != found[1]
+            continue
+        if f["kind"].startswith("plugin-") and d.get("expected_raw") and inp is not None:
+            import bec2format.crypto as bc
+            b = bytes.fromhex(inp["hex"])
+            want = bytes.fromhex(d["expected_raw"]["hex"])
+            wder = bytes.fromhex(d["expected_der"]["hex"])
+            print(" how:", d.get("how"))
+            print(" input DER:", b.hex())
+            try:
+                if b[:1] == b"\x30" and b"\x02\x01\x01\x04" in b[:8]:
+                    key = I.plugin.PrivateEccKeyProxy.create_from_der_fmt(b).public_key
+                else:
+                    key = bc.create_public_ecc_key_from_der_fmt(b)
+                got_raw, got_der = key.to_raw_bin_fmt(), key.to_der_fmt()
+                print(" to_raw_bin_fmt():", got_raw.hex(), "(%d bytes)" % len(got_raw))
+                print(" expected X||Y   :", want.hex())
+                print(" to_der_fmt()    :", got_der.hex())
+                print(" expected        :", wder.hex())
+                bad = got_raw != want or got_der != wder
+            except Exception as e:   # noqa
+                print(" implementation -> %s: %s" % (type(e).__name__, e))
+                bad = True
+            print(" reproduces:", bad)
+            rc |= bool(bad)
             continue
         if dec is None or inp is None:
             print(" (no decoder/input recorded: re-run `bin/check C19` for this kind)")
